@@ -135,4 +135,10 @@ theorem queue_facts (q : List Nat) (h : q.Nodup) :
     · exact Or.inl hx.symm
     · exact Or.inr hx
 
+
+theorem nodup_reverse' (l : List Nat) (h : l.Nodup) : l.reverse.Nodup := by
+  unfold List.Nodup at *
+  rw [List.pairwise_reverse]
+  exact h.imp (fun hab => Ne.symm hab)
+
 end Lockable
